@@ -116,6 +116,34 @@ func c15(c *Ctx) {
 					}
 				}
 			}
+			// the two tests combined in a named boolean (`awaiting := enabled && status != True`): false means verified or disabled
+			{
+				var waitVals []ssa.Value
+				for _, x := range cfgx.Calls(rec, func(ci ssa.CallInstruction) bool { return strings.HasSuffix(cfgx.CalleeName(ci), ".Enabled") }) {
+					if s, ok := cfgx.ConstString(cfgx.CallArgs(x)[0]); ok && s == "EnableAlphaSignatureVerification" {
+						waitVals = append(waitVals, x.Value())
+					}
+				}
+				for _, b := range rec.Blocks {
+					for _, in := range b.Instrs {
+						if bo, ok := in.(*ssa.BinOp); ok && bo.Op == token.NEQ {
+							if s, ok := cfgx.ConstString(bo.Y); ok && s == "True" {
+								if r, p, okp := flow.AccessPathC(bo.X); okp && p == "Status" && flow.Default.Any(r, func(v ssa.Value) bool {
+									ci, ok := v.(*ssa.Call)
+									if !ok || !strings.HasSuffix(cfgx.CalleeName(ci), ".GetCondition") {
+										return false
+									}
+									s, ok := cfgx.ConstString(cfgx.CallArgs(ci)[0])
+									return ok && s == "Verified"
+								}) {
+									waitVals = append(waitVals, bo)
+								}
+							}
+						}
+					}
+				}
+				verified = append(verified, boolConjFalseEdges(rec, waitVals)...)
+			}
 			if nVer == 0 {
 				c.R.Bad(site(e)+" verified", c.pos(e.Pos()), "the Verified condition is never consulted")
 			} else {
